@@ -240,6 +240,96 @@ def render(tree, init=True, second=None):
     return "\n".join(lines) + "\n"
 
 
+# ------------------------------------------------------------------ two tracked names in ONE tree
+
+END_ROLES = ("assign", "assign_nl", "aug", "walrus", "global_assign", "nonlocal_assign", "param", "param_nl",
+             "assign_read_before", "read", "global_read", "nonlocal_read", "global_aug", "nonlocal_aug",
+             "for", "destructure", "walrus_nonlocal", "param_default", "kwonly", "param_same", "kwonly_same")
+# roles the second name may play (no parameter roles: the parameter list belongs to the first name)
+OVERLAY_ROLES = ("none", "read", "assign", "assign_nl", "aug", "nonlocal_assign", "nonlocal_read", "nonlocal_aug",
+                 "global_assign", "global_read", "walrus", "for")
+
+
+def _split(node, ind, r):
+    """(lines before the inner scopes, lines after them) of one scope for one name"""
+    i, kind, role, _ = node
+    if role == "none":
+        return [], []
+    L = render_stmt_scope((i, kind, role, ()), ind, r)
+    if role in END_ROLES:
+        return L[:-1], L[-1:]
+    return L, []
+
+
+def render2_scope(nx, ny, ind, rx, ry):
+    """both names act in the same scopes: x's action, y's action, the inner scopes, x's end, y's end"""
+    prex, postx = _split(nx, ind, rx)
+    prey, posty = _split(ny, ind, ry)
+    # declarations (global/nonlocal) must precede any use of the name in the scope: they do, each
+    # name's lines start with its own declaration and the names are different
+    L = prex + prey
+    for chx, chy in zip(nx[3], ny[3]):
+        L += render2_child(chx, chy, ind, rx, ry)
+    L += postx + posty
+    if not L:
+        L.append(" " * ind + "pass")
+    return L
+
+
+def render2_child(chx, chy, ind, rx, ry):
+    i, kind, role, children = chx
+    if kind not in ("func", "class"):
+        return render_child(chx, ind, rx)       # expression scopes track the first name only
+    head = render_child((i, kind, role, ()), ind, rx)
+    # head[0] is the def/class line; for functions the last line is the call
+    L = [head[0]] + render2_scope(chx, chy, ind + 1, rx, ry)
+    if kind == "func":
+        L.append(head[-1])
+    return L
+
+
+def render2(tree_x, tree_y, init=True):
+    """one program in which x plays tree_x's roles and y plays tree_y's roles in the SAME scopes
+    (the trees must have the same shape; statement scopes only below the root for y)"""
+    nx = number(tree_x)
+    ny = number(tree_y, [500])
+    rx, ry = R("x", 100), R("y", 5000)
+    lines = (["x = 1", "y = 2"] if init else []) + render2_scope(nx, ny, 0, rx, ry)
+    return "\n".join(lines) + "\n"
+
+
+TWO_NAME_ROLES = ("none", "read", "assign", "assign_nl", "nonlocal_assign", "nonlocal_aug", "nonlocal_read")
+
+
+def _legal_single(tree):
+    try:
+        compile(render(tree, True), "<scope>", "exec")
+        return True
+    except SyntaxError:
+        return False
+
+
+def trees_two_names():
+    """chains module > f > g > h (and f > g) of functions; each of the two names has its own owner
+    level and its own access in the deeper functions: two dictionaries of captured variables on one
+    chain, read and written from below (pairs of statically legal single-name chains)"""
+    import itertools
+    out = []
+    for depth in (2, 3):
+        singles = []
+        for roles in itertools.product(TWO_NAME_ROLES, repeat=depth):
+            t = ()
+            for r in reversed(roles):
+                t = (("func", r, t),)
+            tree = ("module", "none", t)
+            if any(r != "none" for r in roles) and _legal_single(tree):
+                singles.append(tree)
+        for tx in singles:
+            for ty in singles:
+                out.append((tx, ty))
+    return out
+
+
 def legal_child(parent_kind, child_kind):
     if parent_kind in ("lambda", "comp"):
         return child_kind in ("lambda", "comp")
